@@ -32,6 +32,8 @@ Definition scalar_of_kind (k : pikind) : pscalar :=
   | KI8 | KI16 | KI32 => SSInt32
   | KU64 => SUInt64
   | KI64 => SSInt64
+  | KExt false _ _ => SUInt64        (* RustType::U64 => ProtobufType::UInt64 *)
+  | KExt true _ _ => SSInt64         (* RustType::I64 => ProtobufType::SInt64 *)
   end.
 
 Fixpoint number_from {A} (i : N) (l : list A) : list (N * A) :=
